@@ -283,8 +283,11 @@ func c20Options(x *xctx) *violation {
 					o := &ops[i][j]
 					o.inv = simrt.Seq()
 					if o.write {
-						if useConfigure {
-							// two separate field updates; only nodecount is checked as a register
+						if useConfigure && i == 1 {
+							// the second writer assigns another option: neither
+							// writer's assignments may undo the other's
+							configure("focus", o.f)
+						} else if useConfigure {
 							configure("nodecount", fmt.Sprint(o.n))
 						} else {
 							c := currentConfig()
@@ -332,6 +335,23 @@ func c20Options(x *xctx) *violation {
 			return violf("torn-option-read", "currentConfig() returned nodecount=%d with focus=%q: fields of two different assignments", o.n, o.f)
 		}
 	}
+	if useConfigure && nw == 2 {
+		// Writer 1 alone assigns focus, writer 0 alone nodecount: once both are
+		// done each option holds its writer's last value.
+		final := currentConfig()
+		lastN, lastF := ops[0][len(ops[0])-1].n, ops[1][len(ops[1])-1].f
+		if final.NodeCount != lastN || final.Focus != lastF {
+			return violf("option-update-lost", "after one task assigned nodecount (last %d) and another focus (last %q), the options are nodecount=%d focus=%q: an assignment to one option undid an assignment to the other", lastN, lastF, final.NodeCount, final.Focus)
+		}
+		// the register check below is about nodecount only
+		var nflat []regOp
+		for _, o := range flat {
+			if !(o.write && containsOp(ops[1], o)) {
+				nflat = append(nflat, o)
+			}
+		}
+		flat = nflat
+	}
 	if !registerLinearizable(init.NodeCount, flat) {
 		return violf("options-not-linearizable", "option reads/writes %v from initial %d have no sequential explanation", regStrings(flat), init.NodeCount)
 	}
@@ -350,6 +370,15 @@ func c20Options(x *xctx) *violation {
 	}
 	x.sample = map[string]interface{}{"mode": "options", "history": regStrings(flat), "configure": useConfigure}
 	return nil
+}
+
+func containsOp(ops []regOp, o regOp) bool {
+	for _, p := range ops {
+		if p.write == o.write && p.n == o.n && p.f == o.f && p.inv == o.inv {
+			return true
+		}
+	}
+	return false
 }
 
 func regStrings(ops []regOp) []string {
